@@ -62,8 +62,11 @@ func c15GenTree(r *rng) (c15Tree, map[string]time.Duration) {
 			t[d+stem+".templ"] = fmt.Sprintf(c15Unparseable, id, id)
 		case k < 12:
 			t[d+stem+".templ"] = fmt.Sprintf(c15BadGo, id, id)
-		case k < 15: // a generated-looking file: orphan, stale or kept
+		case k < 15: // a generated-looking file: orphan, stale or kept (sometimes much longer than any generation)
 			t[d+stem+"_templ.go"] = "package p\n\n// stale " + id + "\n"
+			if r.chance(1, 2) {
+				t[d+stem+"_templ.go"] += strings.Repeat("// left over from an earlier, longer version of the template\n", 200)
+			}
 			age[d+stem+"_templ.go"] = time.Duration(r.intn(3)-1) * time.Hour
 		case k < 17:
 			t[d+stem+".go"] = "package p\n\nvar V" + id + " = 1\n"
@@ -75,6 +78,14 @@ func c15GenTree(r *rng) (c15Tree, map[string]time.Duration) {
 			t[d+"go.mod"] = "module example.com/m\n\ngo 1.23\n"
 		}
 	}
+	// a template whose modification time is the epoch or earlier is as new as any other the first time it is seen
+	if r.chance(1, 5) {
+		for p := range t {
+			if strings.HasSuffix(p, ".templ") && r.chance(1, 2) {
+				age[p] = []time.Duration{c15AgeEpoch, c15AgeOld}[r.intn(2)]
+			}
+		}
+	}
 	// directories that are named like a template or like a generated file: only FILES are generated from or removed
 	if r.chance(1, 4) {
 		d := dirs[r.intn(len(dirs))]
@@ -84,6 +95,10 @@ func c15GenTree(r *rng) (c15Tree, map[string]time.Duration) {
 		case 1:
 			id := c15Ident(r)
 			t[d+"pages.templ/inner.templ"] = fmt.Sprintf(c15Good, id, id)
+			if r.chance(1, 2) {
+				// a generated-looking FILE whose template name is taken by a directory: it has no template file
+				t[d+"pages_templ.go"] = "package p\n\n// stale " + id + "\n"
+			}
 		default:
 			t[d+"old_templ.go/keep.txt"] = "keep"
 		}
@@ -108,6 +123,12 @@ func c15Write(root string, t c15Tree, age map[string]time.Duration) error {
 			return err
 		}
 		mt := base.Add(age[p])
+		switch age[p] {
+		case c15AgeEpoch: // normalised timestamps of reproducible archives and container layers
+			mt = time.Unix(0, 0)
+		case c15AgeOld:
+			mt = time.Date(1969, 7, 20, 20, 17, 0, 0, time.UTC)
+		}
 		os.Chtimes(full, mt, mt)
 	}
 	return nil
@@ -179,6 +200,11 @@ func c15GenAlone(root, rel string, includeVersion bool) (string, bool) {
 	return string(out), true
 }
 
+const (
+	c15AgeEpoch = time.Duration(-1 << 62)
+	c15AgeOld   = time.Duration(-1<<62 + 1)
+)
+
 var c15Fixed = []struct {
 	workers int
 	files   [][2]string
@@ -187,6 +213,8 @@ var c15Fixed = []struct {
 	{2, [][2]string{{"a.templ", "unparseable"}, {"b.templ", "badgo"}, {"c.templ", "good"}, {"d/x.templ", "good"}}},
 	{3, [][2]string{{"a.templ", "badgo"}, {"b.templ", "unparseable"}, {"c.templ", "unparseable"}, {"y/k.templ", "plain"}, {"z.templ", "good"}}},
 	{1, [][2]string{{"m/a.templ", "good"}, {"m/b.templ", "badgo"}, {"m/c.templ", "good"}, {"n.templ", "unparseable"}, {"o.templ", "good"}}},
+	{2, [][2]string{{"pages.templ/inner.templ", "good"}, {"pages_templ.go", "stale"}, {"q.templ", "plain"}}},
+	{2, [][2]string{{"a.templ", "good@epoch"}, {"a_templ.go", "stale"}, {"b.templ", "plain@old"}, {"c.templ", "good"}, {"c_templ.go", "longstale"}}},
 }
 
 func runC15(e *emitter, tier string, seed uint64) {
@@ -220,21 +248,41 @@ func runC15(e *emitter, tier string, seed uint64) {
 		if r.chance(1, 2) {
 			spell = 1 + r.intn(4)
 		}
+		// the root is the directory the user named: its own name never makes it a skipped directory
+		rootKind := r.intn(10)
 		// fixed trees first: as many files that cannot be generated as there are workers, followed (in walk order) by
 		// files that can — every one of them must still be generated and the run must end
 		if i < len(c15Fixed) {
 			tree, age = c15Tree{}, map[string]time.Duration{}
 			for _, f := range c15Fixed[i].files {
 				id := c15Ident(r)
-				tree[f[0]] = fmt.Sprintf(map[string]string{"good": c15Good, "plain": c15GoodNoExpr, "unparseable": c15Unparseable, "badgo": c15BadGo}[f[1]], id, id)
+				if kind, at, ok := strings.Cut(f[1], "@"); ok {
+					f[1] = kind
+					age[f[0]] = map[string]time.Duration{"epoch": c15AgeEpoch, "old": c15AgeOld}[at]
+				}
+				tree[f[0]] = fmt.Sprintf(map[string]string{"good": c15Good, "plain": c15GoodNoExpr, "unparseable": c15Unparseable, "badgo": c15BadGo, "stale": "package p\n\n// stale %s %s\n",
+					"longstale": "package p\n\n// stale %s %s\n" + strings.Repeat("// left over from an earlier, longer version of the template\n", 200)}[f[1]], id, id)
 			}
 			workers, keep, lazy, spell = c15Fixed[i].workers, false, false, 0
 		}
 		if !e.mine(fmt.Sprintf("gen %d", i)) {
 			continue
 		}
-		dir := filepath.Join(scratch, fmt.Sprintf("c15-%d", i))
-		os.RemoveAll(dir)
+		top := filepath.Join(scratch, fmt.Sprintf("c15-%d", i))
+		dir := top
+		switch rootKind {
+		case 0:
+			top = filepath.Join(scratch, fmt.Sprintf("_c15-%d", i))
+			dir = top
+		case 1:
+			top = filepath.Join(scratch, fmt.Sprintf(".c15-%d", i))
+			dir = top
+		case 2:
+			dir = filepath.Join(top, "vendor")
+		case 3:
+			dir = filepath.Join(top, "node_modules")
+		}
+		os.RemoveAll(top)
 		if c15Write(dir, tree, age) != nil {
 			continue
 		}
@@ -374,6 +422,6 @@ func runC15(e *emitter, tier string, seed uint64) {
 		}
 		e.emit(fmt.Sprintf("gen %d", i), "gen", flags, fmt.Sprint(workers), c15Listing(before.content), gj, c15Listing(after.content), tj,
 			fmt.Sprint(exit1), c15Listing(after2.content), fmt.Sprint(exit2), fmt.Sprint(races1+races2), hx(detail))
-		os.RemoveAll(dir)
+		os.RemoveAll(top)
 	}
 }
